@@ -57,15 +57,19 @@ UTtl == /\ Ev.t = "uttl" /\ AbsUpdateTTL(Ev.k, Ev.ttl, Ev.ts)
            THEN Fail("UpdateTTL result " \o Ev.err) ELSE Ok
         /\ cstreak' = 0 /\ compacted' = FALSE /\ UNCHANGED meta
 
-\* C11/C20: compaction completes within a bounded number of calls (tables + entries/1000 + 2)
+\* C11/C20: compaction completes within a bounded number of calls (tables + entries/1000 + 2), counted from the number
+\* of tables and entries the store had when the run of calls began (every compact event carries the store's statistics
+\* taken just before the call; the figures of the last read-back may be hundreds of operations old)
 Compact == /\ Ev.t = "compact" /\ AbsCompact
            /\ cstreak' = IF Ev.done THEN 0 ELSE cstreak + 1
            /\ compacted' = Ev.done
-           /\ IF (Want("C11") \/ Want("C20")) /\ Ev.err # "ok" THEN Fail("compaction error")
-              ELSE IF (Want("C11") \/ Want("C20")) /\ cstreak + 1 > meta.ntab + (meta.len \div 1000) + 2
-                   THEN Fail("compaction does not complete")
-              ELSE Ok
-           /\ UNCHANGED meta
+           /\ LET nt == IF cstreak = 0 THEN Ev.ntab ELSE meta.ntab
+                  ln == IF cstreak = 0 THEN Ev.len ELSE meta.len IN
+              /\ meta' = [meta EXCEPT !.ntab = nt, !.len = ln]
+              /\ IF (Want("C11") \/ Want("C20")) /\ Ev.err # "ok" THEN Fail("compaction error")
+                 ELSE IF (Want("C11") \/ Want("C20")) /\ cstreak + 1 > nt + (ln \div 1000) + 2
+                      THEN Fail("compaction does not complete")
+                 ELSE Ok
 
 ArrKeys == {Ev.arr[j].k : j \in 1..Len(Ev.arr)}
 Xfer == /\ Ev.t = "xfer"
